@@ -135,6 +135,16 @@ def run(ctx):
                 ctx.ob('C55.window', 'stretch_strobe_signal.to_cycles=%d,allow_delay=%d%s' % (n, delay, tag), cex is None, loc,
                        'output must be high exactly in cycles %s after a strobe (%d product states explored); counterexample: %s'
                        % ('1..%d' % n if delay else '0..%d' % (n - 1), nstates, cex))
+                if hname == 'Harness':
+                    # the exploration starts from the reset state: it speaks for the time after a domain reset only if the
+                    # memory of past strobes is actually reset with its domain, to "no strobe seen"
+                    regs = sorted({x for a in ir.assigns if a.domain != 'comb' for x in a.lhs_sigs()})
+                    stale = ['%s (reset_less=%s, init=%s)' % (r, ir.signals[r].reset_less, ir.signals[r].init) for r in regs
+                             if r in ir.signals and (ir.signals[r].reset_less or (ir.signals[r].init or 0) != 0)]
+                    ctx.ob('C55.reset', 'stretch_strobe_signal.to_cycles=%d,allow_delay=%d.memory-reset' % (n, delay), not stale,
+                           next((a.loc for a in ir.assigns if a.domain != 'comb'), loc),
+                           'the memory of past strobes must be cleared by a reset of its domain (a strobe seen before the reset '
+                           'would keep the output high after it): %s' % stale)
                 if hname == 'HarnessDomain':
                     doms = {a.domain for a in ir.assigns if a.domain != 'comb'}
                     ctx.ob('C55.domain', 'stretch_strobe_signal.to_cycles=%d,allow_delay=%d.register-domain' % (n, delay),
